@@ -383,7 +383,7 @@ func (i *In) Evaluation(
 			return err
 		}
 
-		if nextT.IsNewLineIdentifier() {
+		if nextT == nil || nextT.IsNewLineIdentifier() {
 			break
 		}
 
